@@ -138,3 +138,68 @@ HARNESS = {
         'budget_s': {'quick': 60, 'thorough': 600},
         'bound': 'every ordered tree of <= 3 (4) nodes x every assignment of the 5 pruning actions x 8 (18) extension-timing lists x {walkabout, walk}; + random trees up to 7 nodes'},
 }
+
+
+# ---- the real AST builder: scope stack empty again after every module -------------------------------------
+A = 'pydoctor/astbuilder.py'
+_SNIPPETS = [
+    'class C:\n    def m(self): pass\n    class N:\n        x = 1\n',
+    'def f():\n    def inner(): pass\n    class L: pass\n',
+    'class P:\n    @property\n    def p(self): return 1\n    @p.setter\n    def p(self, v): pass\n',
+    'if __name__ == "__main__":\n    class Hidden: pass\n',
+    'from typing import overload\n@overload\ndef o(a: int) -> int: ...\n@overload\ndef o(a: str) -> str: ...\ndef o(a): return a\n@overload\ndef o(a: bytes) -> bytes: ...\n',
+    'class D:\n    def m(self):\n        class InFunc: pass\n        def g(): pass\n',
+    'try:\n    class T: pass\nexcept ImportError:\n    class T: pass\n',
+    'class E(Exception):\n    """doc"""\n    a: int = 1\n    def __init__(self): self.b = 2\n',
+    'def f(): pass\ndef f(): pass\nclass K: pass\nclass K:\n    def m(self): pass\n',
+    'async def co(): pass\nclass A:\n    async def m(self): pass\n    @classmethod\n    @property\n    def cp(cls): return 1\n',
+    'x = 1\n"""doc of x"""\nclass V:\n    y: int\n    """doc of y"""\n',
+    'def broken(:\n',
+    'class W:\n    if True:\n        def a(self): pass\n    else:\n        def b(self): pass\n    for i in range(3):\n        def c(self): pass\n',
+]
+
+
+def _stack_cases(tier, seed):
+    for i in range(len(_SNIPPETS)):
+        yield {'snippets': [i]}
+    rnd = random.Random(seed + 11)
+    for _ in range(40 if tier == 'quick' else 400):
+        yield {'snippets': [rnd.randrange(len(_SNIPPETS)) for _ in range(rnd.randint(2, 4))]}
+
+
+def _check_stack(case):
+    from pydoctor import astbuilder
+    from replay import fixtures
+    seen = []
+    orig = astbuilder.ASTBuilder.processModuleAST
+
+    def wrapped(self, mod_ast, mod):
+        depth = len(self._stack)
+        cur = self.current
+        cm = self.currentMod
+        try:
+            return orig(self, mod_ast, mod)
+        finally:
+            seen.append((mod.fullName(), len(self._stack) - depth, self.current is cur, self.currentMod is cm))
+    astbuilder.ASTBuilder.processModuleAST = wrapped
+    try:
+        src = '\n'.join(_SNIPPETS[i] for i in case['snippets'] if 'broken' not in _SNIPPETS[i])
+        mods = [('stk', src, False)]
+        if any('broken' in _SNIPPETS[i] for i in case['snippets']):
+            mods.append(('stkbad', _SNIPPETS[11], False))
+        try:
+            fixtures.build_system(mods)
+        except BaseException as ex:  # noqa
+            return {'observed': f'build raised {type(ex).__name__}: {ex}', 'required': 'completes'}
+    finally:
+        astbuilder.ASTBuilder.processModuleAST = orig
+    for name, d, same_cur, same_mod in seen:
+        if d != 0 or not same_cur or not same_mod:
+            return {'observed': f'after {name}: stack depth changed by {d}, current restored={same_cur}, currentMod restored={same_mod}',
+                    'required': "after walking any module the builder's scope stack is empty again"}
+    return None
+
+
+HARNESS[f'{A}:ASTBuilder.push'] = {'cases': _stack_cases, 'check': _check_stack,
+    'covers': [f'{A}:ASTBuilder.pop', 'lemma.push_pop_inverse'],
+    'bound': '13 module snippets (nested classes/functions, properties, overloads, __main__ blocks, duplicates, syntax error) alone and in 40 (400) random combinations'}
